@@ -359,7 +359,12 @@ def run_unit(args):
 
         def run(ctx):
             return unit.fn(ip, ctx, **{k: v for k, v in unit.params.items() if k != "may_be_empty"})
+        budget = opts.get("unit_budget_s", 150)
         for ctx, obs in explore(run, max_paths=unit.max_paths):
+            if time.time() - t0 > budget:
+                # undecided, never a violation by itself: what was explored so far is kept, the rest falls to the native stand-in
+                out["oos"] = f"unit time budget of {budget} s exhausted after {out['paths']} paths"
+                break
             out["paths"] += 1
             used |= ctx.used_models
             cused |= ctx.used_contracts
